@@ -115,6 +115,9 @@ def scenario(pk, params, inp):
         return {"raw": raw, "surplus": info[0], "norm": [g.get_value(C(S)) for S in range(2 ** n)]}
     if params["kind"] == "icg":
         v = _v(params, inp)
+        # another game of the same size is normalised first in the same process (state keyed by the size alone must not leak)
+        decoy = _full(pk, n, [inp.const(F.popcount(S) ** 2 + (S % 3)) for S in range(2 ** n)])
+        nz.denormalize_game(decoy, nz.normalize_game(decoy))
         g = _full(pk, n, v)
         info = nz.normalize_game(g)
         out = {"surplus": info[0], "singletons": list(info[1]),
